@@ -370,7 +370,10 @@ fn walk(p: &ref_bin::Parsed, c: &Case) -> Option<(String, String)> {
         }
         pos += len;
     }
-    if p.data_size != want_size || data.len() - pos != 4 {
+    // The statement fixes the extent of every record; whether a terminator word follows the
+    // last record is the writer's business (mila writes one zero word): accept 0 or 4 bytes.
+    let trailing = data.len() - pos;
+    if !(trailing == 0 || trailing == 4) || p.data_size != want_size - 4 + trailing {
         return Some((
             "size:data".into(),
             format!("data size {} with {} bytes after the last record; 4 + sum(flag bytes + 4 + 4*popcount) + 4 = {} with a 4-byte terminator", p.data_size, data.len() - pos, want_size),
